@@ -404,7 +404,7 @@ func (v *Verifier) replayObligation(o *Obligation, fx *FnCtx, fn *ssa.Function, 
 	mfile := filepath.Join(outDir, sanitize(o.Name)+".model.smt2")
 	var out string
 	// prefer small models: bound slice/string lengths, then relax
-	for _, bound := range []int64{8, 64, 4096, -1} {
+	for _, bound := range []int64{8, 256, -1} {
 		extra := append([]*Term{}, asserts...)
 		if bound >= 0 {
 			var walk func(n *inNode)
@@ -432,12 +432,8 @@ func (v *Verifier) replayObligation(o *Obligation, fx *FnCtx, fn *ssa.Function, 
 		}
 		script := PrintScript(extra, nil, true, rc.terms)
 		_ = os.WriteFile(mfile, []byte(script), 0o644)
-		for _, s := range solvers {
-			r := runSolver(context.Background(), s, 20, mfile)
-			if r.Status == "sat" {
-				out = r.Output
-				break
-			}
+		if r, _ := race(mfile, 8); r.Status == "sat" {
+			out = r.Output
 		}
 		if out != "" {
 			break
@@ -587,10 +583,18 @@ func (v *Verifier) replaySource(o *Obligation, fx *FnCtx, fn *ssa.Function, fc *
 	var clauses []*Clause
 	if o.Kind == "ensures" && o.Clause != nil {
 		clauses = []*Clause{o.Clause}
+	} else {
+		// an inner obligation (invariant, callee precondition, ...) failed: the model's inputs are tried
+		// against every postcondition of the function (a run-time contract check on the real code)
+		clauses = fc.Ensures
 	}
 	for _, c := range clauses {
 		code, _ := g.expr(c.Expr, sc)
 		if g.err != nil {
+			if len(clauses) > 1 {
+				g.err = nil
+				continue
+			}
 			return "", g.err
 		}
 		fmt.Fprintf(&body, "\tif !(%s) {\n\t\tfmt.Println(\"HVC-REPLAY: reproduced: clause is false on the real code:\", %q)\n\t\tfmt.Printf(\"HVC-REPLAY: inputs: %s\\n\"%s)\n\t\treturn\n\t}\n", code, c.Src, fmtVerbs(argNames, resNames), fmtArgs(argNames, resNames))
